@@ -2,8 +2,9 @@
    C05, C03) — not one of the 19 properties, compiled with them.
    Gen/GenAggr.v is produced by tools/qf2coq/aggr.go from the Go text of grouper.go (Grouper.Aggregate,
    Grouper.QFrames), of qframe.go (GroupBy, Distinct, checkColumns, columnsOrAll, ColumnNames, orders, comparables,
-   Len, withErr, withIndex), of config/groupby (NewConfig) and of internal/icolumn (Column.Aggregate,
-   subsetWithBuf, aggregations.go), statement by statement.  Every theorem below says: the definition generated
+   Len, withErr, withIndex), of config/groupby (NewConfig), of internal/icolumn / fcolumn / bcolumn (Column.Aggregate,
+   subsetWithBuf, aggregations.go) and of the Comparable of all five column packages (the constructor
+   Column.Comparable, Compare, Hash; scolumn's bytesAt), statement by statement.  Every theorem below says: the definition generated
    from the Go source equals the hand-written model function of Model/Aggregate.v that the proofs of C04 / C05 and
    the group engine use — for all inputs of the model.  An edit of one of these Go functions changes the
    generated text at the next run and the theorem of that function stops compiling.
@@ -26,7 +27,7 @@
    comparables over [0, len)), so the equalities hold outright. *)
 From QF Require Import Base.Prelude Gen.GenTables Gen.GenFuncs Gen.GenFilterClause Gen.GenAggr.
 From QF Require Import Model.Frame Model.Filter Model.Ops Model.Aggregate Proofs.GenAggrProofs.
-From QF Require Model.Sort Model.SortFrame.
+From QF Require Model.Sort Model.SortFrame Model.Grouper.
 Local Open Scope Z_scope.
 
 (* ------------------------------------------------------------------ the representation *)
@@ -289,3 +290,261 @@ Example T1_aggr_icolumn_Compare_sort_example :
   (0 < length [5; 3])%nat /\ (1 < length [5; 3])%nat /\
   ga_icolumn_Comparable_Compare (emb_comparable [5; 3] (Sort.mk_cmpcfg true false false)) 0 1 = Ok 0.
 Proof. repeat split; cbn; lia. Qed.
+
+(* ================================================================== the other column packages ================ *)
+(* float64 values are bit patterns (N) and the float operations are VARIABLES of the generated code (x < y,
+   math.IsNaN, == 0, math.NaN(), +, /, float64(n), math.Max, math.Min): every theorem says which reading it uses.
+   memhash (hash.HashBytes) is any function of the byte list and the seed; rand.Uint64() is any function of a
+   stream state that the Hash method takes and hands back. *)
+
+(* ------------------------------------------------------------------ Comparable (the constructors) *)
+
+Theorem T1_aggr_fcolumn_Comparable {K : Type} (wrap : ga_fcolumn_Comparable -> K) (d : list N) (reverse equalNull nullLast : bool) :
+  ga_fcolumn_Column_Comparable wrap (ga_mk_fcolumn_Column d) reverse equalNull nullLast
+  = Ok (wrap (emb_fcomparable d (Sort.mk_cmpcfg reverse equalNull nullLast))).
+Proof. exact (ga_fcolumn_Comparable_eq wrap d reverse equalNull nullLast). Qed.
+Print Assumptions T1_aggr_fcolumn_Comparable.
+
+Theorem T1_aggr_bcolumn_Comparable {K : Type} (wrap : ga_bcolumn_Comparable -> K) (d : list bool) (reverse equalNull nullLast : bool) :
+  ga_bcolumn_Column_Comparable wrap (ga_mk_bcolumn_Column d) reverse equalNull nullLast
+  = Ok (wrap (emb_bcomparable d (Sort.mk_cmpcfg reverse equalNull nullLast))).
+Proof. exact (ga_bcolumn_Comparable_eq wrap d reverse equalNull nullLast). Qed.
+Print Assumptions T1_aggr_bcolumn_Comparable.
+
+(* scolumn declares the fields of Comparable in another order (lt, gt, nullLt, nullGt): emb_scomparable follows it *)
+Theorem T1_aggr_scolumn_Comparable {K : Type} (wrap : ga_scolumn_Comparable -> K) (c : ga_scolumn_Column) (reverse equalNull nullLast : bool) :
+  ga_scolumn_Column_Comparable wrap c reverse equalNull nullLast
+  = Ok (wrap (emb_scomparable c (Sort.mk_cmpcfg reverse equalNull nullLast))).
+Proof. exact (ga_scolumn_Comparable_eq wrap c reverse equalNull nullLast). Qed.
+Print Assumptions T1_aggr_scolumn_Comparable.
+
+Theorem T1_aggr_ecolumn_Comparable {K : Type} (wrap : ga_ecolumn_Comparable -> K) (c : ga_ecolumn_Column) (reverse equalNull nullLast : bool) :
+  ga_ecolumn_Column_Comparable wrap c reverse equalNull nullLast
+  = Ok (wrap (emb_ecomparable c (Sort.mk_cmpcfg reverse equalNull nullLast))).
+Proof. exact (ga_ecolumn_Comparable_eq wrap c reverse equalNull nullLast). Qed.
+Print Assumptions T1_aggr_ecolumn_Comparable.
+
+(* ------------------------------------------------------------------ Compare (C03_compare_order) *)
+
+(* fcolumn: x < y, x > y first, then the NaN tests — for ANY reading flt / fnan of < and math.IsNaN, EVERY
+   configuration; a row outside the data panics *)
+Theorem T1_aggr_fcolumn_Compare (flt : N -> N -> bool) (fnan : N -> bool) (d : list N) (cfg : Sort.cmpcfg) (i j : nat) :
+  ga_fcolumn_Comparable_Compare flt fnan (emb_fcomparable d cfg) (Z.of_nat i) (Z.of_nat j)
+  = (do _ <- idx d i; do _ <- idx d j;
+     Ok (cres_code (Sort.compare_rows_float cfg (fun a => fnan (nth a d 0%N))
+                      (fun a b => flt (nth a d 0%N) (nth b d 0%N)) i j))).
+Proof. exact (ga_fcolumn_Compare_eq flt fnan d cfg i j). Qed.
+Print Assumptions T1_aggr_fcolumn_Compare.
+
+(* ... with the model's f_lt / f_isnan: the Compare Sort uses for a float column.  Premises: rows of the column *)
+Theorem T1_aggr_fcolumn_Compare_sort (d : list N) (reverse nullLast : bool) (i j : nat) :
+  (i < length d)%nat -> (j < length d)%nat ->
+  ga_fcolumn_Comparable_Compare f_lt f_isnan (emb_fcomparable d (Sort.mk_cmpcfg reverse false nullLast))
+    (Z.of_nat i) (Z.of_nat j)
+  = Ok (cres_code (SortFrame.col_comparable (FCol d) reverse nullLast i j)).
+Proof. exact (ga_fcolumn_Compare_sortframe d reverse nullLast i j). Qed.
+Print Assumptions T1_aggr_fcolumn_Compare_sort.
+Example T1_aggr_fcolumn_Compare_sort_example :
+  let d := [0x7FF8000000000001; 0x3FF0000000000000]%N in     (* NaN, 1.0 *)
+  (0 < length d)%nat /\ (1 < length d)%nat /\
+  ga_fcolumn_Comparable_Compare f_lt f_isnan (emb_fcomparable d (Sort.mk_cmpcfg false false true)) 0 1 = Ok 1.
+Proof. cbv zeta. split; [cbn; lia|]. split; [cbn; lia|]. vm_compute. reflexivity. Qed.
+
+Theorem T1_aggr_bcolumn_Compare (d : list bool) (cfg : Sort.cmpcfg) (i j : nat) :
+  ga_bcolumn_Comparable_Compare (emb_bcomparable d cfg) (Z.of_nat i) (Z.of_nat j)
+  = (do _ <- idx d i; do _ <- idx d j;
+     Ok (cres_code (Sort.compare_rows_bool cfg (fun a => nth a d false) i j))).
+Proof. exact (ga_bcolumn_Compare_eq d cfg i j). Qed.
+Print Assumptions T1_aggr_bcolumn_Compare.
+
+Theorem T1_aggr_bcolumn_Compare_sort (d : list bool) (reverse nullLast : bool) (i j : nat) :
+  (i < length d)%nat -> (j < length d)%nat ->
+  ga_bcolumn_Comparable_Compare (emb_bcomparable d (Sort.mk_cmpcfg reverse false nullLast)) (Z.of_nat i) (Z.of_nat j)
+  = Ok (cres_code (SortFrame.col_comparable (BCol d) reverse nullLast i j)).
+Proof. exact (ga_bcolumn_Compare_sortframe d reverse nullLast i j). Qed.
+Print Assumptions T1_aggr_bcolumn_Compare_sort.
+
+(* scolumn.  THE REPRESENTATION rep_scol c d: the Go struct c (pointers into one byte slice) represents the model's
+   list of optional strings d when Column.bytesAt — translated: the Pointer accessors of GenFuncs and the slice
+   expression data[off : off+len] — reads d: the bytes of string i, (nil, true) for a null, a panic beyond the
+   column.  rep_scol_check is a decidable sufficient condition (T1_aggr_scolumn_rep_check).  Under it: the null
+   tests first, then bytes.Compare (byte order: -1 -> ltValue, 1 -> gtValue, else Equal) *)
+Theorem T1_aggr_scolumn_rep_check (c : ga_scolumn_Column) (d : list (option bytes)) :
+  rep_scol_check c d = true -> rep_scol c d.
+Proof. exact (rep_scol_check_sound c d). Qed.
+Print Assumptions T1_aggr_scolumn_rep_check.
+Example T1_aggr_scolumn_rep_example :
+  (* "ab", null, "", "c": offsets 0, 2, 2, 2 — built with NewPointer *)
+  rep_scol_check
+    (ga_mk_scolumn_Column [gf_strings_NewPointer 0 2 false; gf_strings_NewPointer 2 0 true;
+                           gf_strings_NewPointer 2 0 false; gf_strings_NewPointer 2 1 false] [97; 98; 99]%N)
+    [Some [97; 98]%N; None; Some []; Some [99]%N] = true.
+Proof. vm_compute. reflexivity. Qed.
+
+Theorem T1_aggr_scolumn_Compare (c : ga_scolumn_Column) (d : list (option bytes)) (cfg : Sort.cmpcfg) (i j : nat) :
+  rep_scol c d ->
+  ga_scolumn_Comparable_Compare (emb_scomparable c cfg) (Z.of_nat i) (Z.of_nat j)
+  = (do _ <- idx d i; do _ <- idx d j;
+     Ok (cres_code (Sort.compare_rows cfg (fun a => SortFrame.str_is_null (nth a d None))
+                      (fun a b => SortFrame.str_vlt (nth a d None) (nth b d None)) i j))).
+Proof. exact (ga_scolumn_Compare_eq c d cfg i j). Qed.
+Print Assumptions T1_aggr_scolumn_Compare.
+
+Theorem T1_aggr_scolumn_Compare_sort (c : ga_scolumn_Column) (d : list (option bytes)) (reverse nullLast : bool) (i j : nat) :
+  rep_scol c d -> (i < length d)%nat -> (j < length d)%nat ->
+  ga_scolumn_Comparable_Compare (emb_scomparable c (Sort.mk_cmpcfg reverse false nullLast)) (Z.of_nat i) (Z.of_nat j)
+  = Ok (cres_code (SortFrame.col_comparable (SCol d) reverse nullLast i j)).
+Proof. exact (ga_scolumn_Compare_sortframe c d reverse nullLast i j). Qed.
+Print Assumptions T1_aggr_scolumn_Compare_sort.
+Example T1_aggr_scolumn_Compare_sort_example :
+  let c := ga_mk_scolumn_Column [gf_strings_NewPointer 0 2 false; gf_strings_NewPointer 2 0 true] [97; 98]%N in
+  let d := [Some [97; 98]%N; None] in
+  rep_scol_check c d = true /\ (0 < length d)%nat /\ (1 < length d)%nat /\
+  (* "ab" against null with NullLast and Reverse: Reverse inverts the null placement as well, "ab" is GreaterThan *)
+  ga_scolumn_Comparable_Compare (emb_scomparable c (Sort.mk_cmpcfg true false true)) 0 1 = Ok 1.
+Proof. cbv zeta. split; [vm_compute; reflexivity|]. split; [cbn; lia|]. split; [cbn; lia|]. vm_compute. reflexivity. Qed.
+
+(* ecolumn: emb_ecol is the Go struct with the ranks as uint8 values; null is rank 255; the ranks are compared as
+   numbers (= the declared positions; Compare does not go through compVal) *)
+Theorem T1_aggr_ecolumn_Compare (d : list N) (values : list bytes) (strict : bool) (cfg : Sort.cmpcfg) (i j : nat) :
+  ga_ecolumn_Comparable_Compare (emb_ecomparable (emb_ecol d values strict) cfg) (Z.of_nat i) (Z.of_nat j)
+  = (do _ <- idx d i; do _ <- idx d j;
+     Ok (cres_code (Sort.compare_rows cfg (fun a => enum_is_null (nth a d GenConsts.c_nullValue))
+                      (fun a b => (nth a d GenConsts.c_nullValue <? nth b d GenConsts.c_nullValue)%N) i j))).
+Proof. exact (ga_ecolumn_Compare_eq d values strict cfg i j). Qed.
+Print Assumptions T1_aggr_ecolumn_Compare.
+
+Theorem T1_aggr_ecolumn_Compare_sort (d : list N) (values : list bytes) (strict : bool) (reverse nullLast : bool) (i j : nat) :
+  (i < length d)%nat -> (j < length d)%nat ->
+  ga_ecolumn_Comparable_Compare (emb_ecomparable (emb_ecol d values strict) (Sort.mk_cmpcfg reverse false nullLast))
+    (Z.of_nat i) (Z.of_nat j)
+  = Ok (cres_code (SortFrame.col_comparable (ECol d values strict) reverse nullLast i j)).
+Proof. exact (ga_ecolumn_Compare_sortframe d values strict reverse nullLast i j). Qed.
+Print Assumptions T1_aggr_ecolumn_Compare_sort.
+
+(* ------------------------------------------------------------------ Hash: the bytes handed to memhash (C04_cell_hash_input) *)
+(* For every type: Hash(i, seed) = memhash (the model's hash_input of the key cell) seed, for EVERY memhash; for a
+   float NaN and a null string under Null(false) (equalNullValue == NotEqual, i.e. equalNull = false in the
+   constructor) hash_input is None and Hash answers the next number of the random stream (hash_result).  The cast
+   ( *[8]byte)(unsafe.Pointer(&v))[:] is read as the little-endian bytes of v (ga_le64 = Grouper.le_bytes 8). *)
+
+Theorem T1_aggr_icolumn_Hash (mh : bytes -> N -> N) (d : list Z) (cfg : Sort.cmpcfg) (nulleq : bool) (i : nat) (seed : N) :
+  ga_icolumn_Comparable_Hash mh (emb_comparable d cfg) (Z.of_nat i) seed
+  = (do z <- idx d i; Ok (match Grouper.hash_input nulleq (Grouper.CInt z) with Some b => mh b seed | None => 0%N end)).
+Proof. exact (ga_icolumn_Hash_eq mh d cfg nulleq i seed). Qed.
+Print Assumptions T1_aggr_icolumn_Hash.
+
+Theorem T1_aggr_bcolumn_Hash (mh : bytes -> N -> N) (d : list bool) (cfg : Sort.cmpcfg) (nulleq : bool) (i : nat) (seed : N) :
+  ga_bcolumn_Comparable_Hash mh (emb_bcomparable d cfg) (Z.of_nat i) seed
+  = (do b <- idx d i; Ok (match Grouper.hash_input nulleq (Grouper.CBool b) with Some x => mh x seed | None => 0%N end)).
+Proof. exact (ga_bcolumn_Hash_eq mh d cfg nulleq i seed). Qed.
+Print Assumptions T1_aggr_bcolumn_Hash.
+
+(* the enum null (rank 255) is hashed like any rank, also under Null(false): no random branch in ecolumn *)
+Theorem T1_aggr_ecolumn_Hash (mh : bytes -> N -> N) (d : list N) (values : list bytes) (strict : bool)
+  (cfg : Sort.cmpcfg) (nulleq : bool) (i : nat) (seed : N) :
+  ga_ecolumn_Comparable_Hash mh (emb_ecomparable (emb_ecol d values strict) cfg) (Z.of_nat i) seed
+  = (do r <- idx d i; Ok (match Grouper.hash_input nulleq (Grouper.CEnum r) with Some x => mh x seed | None => 0%N end)).
+Proof. exact (ga_ecolumn_Hash_eq mh d values strict cfg nulleq i seed). Qed.
+Print Assumptions T1_aggr_ecolumn_Hash.
+
+(* the None branch of the three statements above is never taken *)
+Theorem T1_aggr_hash_input_total (nulleq : bool) (z : Z) (b : bool) (r : N) :
+  Grouper.hash_input nulleq (Grouper.CInt z) <> None /\ Grouper.hash_input nulleq (Grouper.CBool b) <> None
+  /\ Grouper.hash_input nulleq (Grouper.CEnum r) <> None.
+Proof. exact (hash_input_total nulleq z b r). Qed.
+Print Assumptions T1_aggr_hash_input_total.
+
+(* fcolumn, with math.IsNaN / == 0 / math.NaN() / 0 read as Model/Grouper.v reads them on bit patterns
+   (f_isnan, f_key b = 0, c_uvnan, 0): NaNs hash as math.NaN(), both zeros as +0 *)
+Theorem T1_aggr_fcolumn_Hash {R : Type} (mh : bytes -> N -> N) (rnd : R -> N * R) (d : list N)
+  (reverse equalNull nullLast : bool) (i : nat) (seed : N) (r : R) :
+  ga_fcolumn_Comparable_Hash 0%N Grouper.c_uvnan Grouper.f_isnan g_iszero mh rnd
+    (emb_fcomparable d (Sort.mk_cmpcfg reverse equalNull nullLast)) (Z.of_nat i) seed r
+  = (do b <- idx d i; Ok (hash_result mh rnd equalNull (Grouper.CFloat b) seed r)).
+Proof. exact (ga_fcolumn_Hash_eq mh rnd d reverse equalNull nullLast i seed r). Qed.
+Print Assumptions T1_aggr_fcolumn_Hash.
+Example T1_aggr_fcolumn_Hash_example :
+  (* NaN under Null(false): the random number 42, the stream advances; -0.0: the bytes of +0 *)
+  ga_fcolumn_Comparable_Hash 0%N Grouper.c_uvnan Grouper.f_isnan g_iszero (fun b s => N.of_nat (length b) + s)%N
+    (fun r : N => (42, r + 1))%N (emb_fcomparable [0x7FF8000000000005; 0x8000000000000000]%N (Sort.mk_cmpcfg false false false)) 0 7%N 0%N
+  = Ok (42, 1)%N
+  /\ Grouper.hash_input false (Grouper.CFloat 0x8000000000000000%N) = Some [0; 0; 0; 0; 0; 0; 0; 0]%N.
+Proof. split; vm_compute; reflexivity. Qed.
+
+Theorem T1_aggr_scolumn_Hash {R : Type} (mh : bytes -> N -> N) (rnd : R -> N * R) (c : ga_scolumn_Column)
+  (d : list (option bytes)) (reverse equalNull nullLast : bool) (i : nat) (seed : N) (r : R) :
+  rep_scol c d ->
+  ga_scolumn_Comparable_Hash mh rnd (emb_scomparable c (Sort.mk_cmpcfg reverse equalNull nullLast)) (Z.of_nat i) seed r
+  = (do s <- idx d i; Ok (hash_result mh rnd equalNull (Grouper.CStr s) seed r)).
+Proof. exact (ga_scolumn_Hash_eq mh rnd c d reverse equalNull nullLast i seed r). Qed.
+Print Assumptions T1_aggr_scolumn_Hash.
+
+(* ------------------------------------------------------------------ fcolumn / bcolumn: aggregations and Aggregate *)
+
+(* sum: the left fold of + from 0 in slice order; avg: that sum / float64(len) — for ANY float arithmetic *)
+Theorem T1_aggr_fcolumn_sum (fzero : N) (fadd : N -> N -> N) (v : list N) :
+  ga_fcolumn_sum fzero fadd v = Ok (fold_left fadd v fzero).
+Proof. exact (ga_fcolumn_sum_eq fzero fadd v). Qed.
+Print Assumptions T1_aggr_fcolumn_sum.
+
+Theorem T1_aggr_fcolumn_avg (fzero : N) (fadd fdiv : N -> N -> N) (fofint : Z -> N) (v : list N) :
+  ga_fcolumn_avg fzero fadd fdiv fofint v = Ok (fdiv (fold_left fadd v fzero) (fofint (Z.of_nat (length v)))).
+Proof. exact (ga_fcolumn_avg_eq fzero fadd fdiv fofint v). Qed.
+Print Assumptions T1_aggr_fcolumn_avg.
+
+(* max / min with math.Max / math.Min read as the model's f_max / f_min: fl_max / fl_min (C04), panic when empty *)
+Theorem T1_aggr_fcolumn_max (v : list N) : ga_fcolumn_max Aggregate.f_max v = fl_max v.
+Proof. exact (ga_fcolumn_max_eq v). Qed.
+Print Assumptions T1_aggr_fcolumn_max.
+
+Theorem T1_aggr_fcolumn_min (v : list N) : ga_fcolumn_min Aggregate.f_min v = fl_min v.
+Proof. exact (ga_fcolumn_min_eq v). Qed.
+Print Assumptions T1_aggr_fcolumn_min.
+
+(* var aggregations of fcolumn: a name is defined exactly when t_f_aggregations has it; f_builtin says which
+   translated function the Go function name of that table stands for *)
+Theorem T1_aggr_fcolumn_aggregations (fzero : N) (fadd fdiv : N -> N -> N) (fofint : Z -> N) (n : bytes) :
+  ga_map_get (fun _ : list N => @Panic N)
+    (ga_fcolumn_aggregations fzero fadd fdiv Aggregate.f_max Aggregate.f_min fofint) n
+  = match Filter.assocb n GenTables.t_f_aggregations with
+    | Some gofn => match f_builtin fzero fadd fdiv fofint gofn with
+                   | Some fz => (fz, true) | None => (fun _ => Panic, false) end
+    | None => (fun _ => Panic, false)
+    end.
+Proof. exact (ga_faggregations_eq fzero fadd fdiv fofint n). Qed.
+Print Assumptions T1_aggr_fcolumn_aggregations.
+
+(* Column.Aggregate of fcolumn = the model's col_aggregate on a float column.  For "sum" and "avg" the model
+   answers from its oracle table ft (results computed by Go); premises, only for these two names: the table holds,
+   for the values of every group, the result of the float arithmetic the generated code is instantiated with.
+   No premise for max, min, user functions, unknown names and other values. *)
+Theorem T1_aggr_fcolumn_Aggregate (ft : float_table) (fzero : N) (fadd fdiv : N -> N -> N) (fofint : Z -> N)
+  (d : list N) (gs : list (list nat)) (fn : aggfn) :
+  (fn = GName gofn_sum -> oracle_agrees ft gofn_sum (f_sum_spec fzero fadd) d gs) ->
+  (fn = GName gofn_avg -> oracle_agrees ft gofn_avg (f_avg_spec fzero fadd fdiv fofint) d gs) ->
+  ga_fcolumn_Column_Aggregate m_new_error m_fn_cases_float FCol m_fnName fzero fadd fdiv Aggregate.f_max Aggregate.f_min
+    fofint m_fn_text (ga_mk_fcolumn_Column d) (map ints gs) fn
+  = m_col_Aggregate ft (FCol d) (map ints gs) fn.
+Proof. exact (ga_fcolumn_Aggregate_eq ft fzero fadd fdiv fofint d gs fn). Qed.
+Print Assumptions T1_aggr_fcolumn_Aggregate.
+Example T1_aggr_fcolumn_Aggregate_example :
+  (* a toy arithmetic on "bit patterns": + is N.add, 0 is 0; the oracle table holds the two group sums *)
+  let ft := [(gofn_sum, [CFloat 1; CFloat 2], CFloat 3); (gofn_sum, [CFloat 5], CFloat 5)]%N in
+  oracle_agrees ft gofn_sum (f_sum_spec 0%N N.add) [1; 2; 5]%N [[0%nat; 1%nat]; [2%nat]]
+  /\ m_col_Aggregate ft (FCol [1; 2; 5]%N) (map ints [[0%nat; 1%nat]; [2%nat]]) (GName gofn_sum)
+     = Ok (Some (FCol [3; 5]%N), None).
+Proof.
+  cbv zeta. split; [|vm_compute; reflexivity].
+  intros g vals [H|[H|[]]] Hv; subst g; vm_compute in Hv; inversion Hv; subst vals; vm_compute; reflexivity.
+Qed.
+
+Theorem T1_aggr_bcolumn_majority (v : list bool) : ga_bcolumn_majority v = Ok (b_majority v).
+Proof. exact (ga_bcolumn_majority_eq v). Qed.
+Print Assumptions T1_aggr_bcolumn_majority.
+
+Theorem T1_aggr_bcolumn_Aggregate (ft : float_table) (d : list bool) (gs : list (list nat)) (fn : aggfn) :
+  ga_bcolumn_Column_Aggregate m_new_error m_fn_cases_bool BCol m_fnName m_fn_text (ga_mk_bcolumn_Column d) (map ints gs) fn
+  = m_col_Aggregate ft (BCol d) (map ints gs) fn.
+Proof. exact (ga_bcolumn_Aggregate_eq ft d gs fn). Qed.
+Print Assumptions T1_aggr_bcolumn_Aggregate.
